@@ -314,6 +314,7 @@ impl Monitor for C19 {
             ("(a)(b)(c)(d)(e)(f)(g)(h)(i)(j)\\10", "", "abcdefghijj"),
             ("(a)(b)(c)(d)(e)(f)(g)(h)(i)\\10", "", "abcdefghia0"),
             ("([a-b])+\\1+", "", "ab"),
+            ("(?:(?:.|(a))? \\1)1", "", "a a1"),
         ])
     }
 }
